@@ -16,8 +16,9 @@ TRUSTED = ["golang.org/x/mod/semver is modelled (parse, Canonical, Major, MajorM
            "the resolver's I/O (dialing, fetching into the cache directory, go-toml parsing of dawn.toml) is the function "
            "Env.summary of the model; the harness drives the real Resolver against a fake repository (shape of "
            "internal/mvs/repo_test.go) that writes real dawn.toml files",
-           "ref queries (branch → pseudo-version) are a parameter of the model: the harness observes what resolveRefQuery "
-           "returns and hands it to the model; they are covered by the correspondence only",
+           "ref queries are modelled (Dawn/Model/MvsRef.lean) over an abstract commit history — what ResolveRef / GetRevision / "
+           "Revision.History() / When() / PseudoID() and the tagged revisions give; the VCS itself (go-git, the order of its "
+           "pre-order walk) is not modelled; module.PseudoVersion is modelled on structured versions and compared per input",
            "path.Clean is the identity on the (clean) project paths the generator produces"]
 
 
